@@ -8,3 +8,4 @@ open Just.Props.C16
 #print axioms known_runs_here
 #print axioms fallback_step
 #print axioms explicit_justfile_disables_both
+#print axioms candidate_names_are_documented
